@@ -67,7 +67,7 @@ def run(tier: str) -> int:
               "labellings (strings, duplicates, shuffled ints) and random equivalent presentations (int columns as whole floats, "
               "bool columns as 0/1, any index, DataFrame or dict of Series); ALL nodes of the default graph compared by p_id: values with "
               "2^-40 relative tolerance, dtypes exactly, id columns as partitions. distinct = (population, permutation).")
-    common.build_and_audit(r, ["C01", "C01Sim", "C12Cor"], leanchecker=not quick)
+    common.build_and_audit(r, ["C01", "C01Sim", "C01E2E", "C01Ids", "C12Cor"], leanchecker=not quick)
     rnd = common.rng("C01")
     t3.run_t3(r, 1000 * common.seed() + 1, 40 if quick else 600)
     dates = popgen.DATES_QUICK if quick else popgen.DATES_2015
